@@ -551,7 +551,10 @@ func (c *gen) recExpr() (*Expr, bool) {
 
 func ruleNames(c *gen, nEntries, nHelpers int) (entries, helpers []string) {
 	if c.cfg.NameStyle == 1 {
-		pool := []string{"A", "A1", "A11", "A2", "R", "R1", "R12", "B", "B1", "Été", "Ω", "_x", "_", "type", "func", "len", "nil", "Rule", "X9"}
+		// (Go keywords and predeclared identifiers are left out: a reference to such a rule is
+		// reported as "identifier is a reserved word" by the front-end, so the grammar is not
+		// an accepted one)
+		pool := []string{"A", "A1", "A11", "A2", "R", "R1", "R12", "B", "B1", "Été", "Ω", "_x", "_", "Type", "Func", "Rule", "X9", "A111", "R2"}
 		perm := rapid.Permutation(pool).Draw(c.t, "rulenames")
 		for i := 0; i < nEntries; i++ {
 			entries = append(entries, perm[i])
